@@ -1,8 +1,567 @@
-//! C20: schema introspection through the real SchemaAdapter.
+//! C20: schema introspection through the real `SchemaAdapter`.
+//!
+//! (a) contract half: the real `check_adapter_invariants` on the real adapter, and the engine run
+//!     over it behind an order-preserving wrapper that reads ahead in tape-chosen chunks and
+//!     injects contexts without an active vertex into every resolver's input (the adapter must
+//!     answer null / no neighbors for them, in place);
+//! (b) content half: generated introspection queries over the meta-schema; rows must equal the
+//!     reference model evaluated on the harness's own view of its schema AST.
 
-use crate::checks::{CaseResult, HarnessError};
-use crate::tape::Tapes;
+use std::cell::{Cell, RefCell};
+use std::collections::{BTreeMap, VecDeque};
+use std::panic::{AssertUnwindSafe, catch_unwind};
+use std::rc::Rc;
+use std::sync::Arc;
 
-pub fn case_c20(_tapes: &mut Tapes) -> Result<CaseResult, HarnessError> {
-    Err(HarnessError("C20 not built yet".into()))
+use trustfall_core::interpreter::execution::interpret_ir;
+use trustfall_core::interpreter::helpers::check_adapter_invariants;
+use trustfall_core::interpreter::{
+    Adapter, AsVertex, ContextIterator, ContextOutcomeIterator, DataContext, ResolveEdgeInfo,
+    ResolveInfo, VertexIterator,
+};
+use trustfall_core::ir::{EdgeParameters, FieldValue, TransparentValue};
+use trustfall_core::schema::{Schema, SchemaAdapter};
+
+use crate::checks::{CaseResult, CaseStats, HarnessError, Violation};
+use crate::model::{Model, Row, canon_fold_lists, rows_differ};
+use crate::qast::{QueryCfg, gen_args, gen_query};
+use crate::runner::{BuildError, build_world, finish_workload, row_to_model, take_panic};
+use crate::tape::{Tape, Tapes, fnv1a, mix};
+use crate::val::{Base, Ty, mk_str};
+use crate::world::{Card, EdgeDef, EntryPoint, PropDef, SchemaAst, TypeDef, VertexData, World};
+
+type SV<'a> = <SchemaAdapter<'a> as Adapter<'a>>::Vertex;
+
+const VT: usize = 0;
+const PROP: usize = 1;
+const EDGE: usize = 2;
+const PARAM: usize = 3;
+const SCHEMA: usize = 4;
+
+fn p(name: &str, ty: &str) -> PropDef {
+    PropDef { name: name.into(), ty: Ty::parse(ty).unwrap() }
 }
+
+fn e(name: &str, target: usize, card: Card, origin: usize) -> EdgeDef {
+    EdgeDef { name: name.into(), target, card, params: vec![], origin }
+}
+
+/// The harness's transcription of trustfall_core/src/schema/adapter/schema.graphql.
+pub fn meta_schema_ast() -> SchemaAst {
+    let types = vec![
+        TypeDef {
+            name: "VertexType".into(),
+            is_interface: false,
+            implements: vec![],
+            props: vec![p("name", "String!"), p("docs", "String"), p("is_interface", "Boolean!")],
+            edges: vec![
+                e("implements", VT, Card::Many, VT),
+                e("implementer", VT, Card::Many, VT),
+                e("property", PROP, Card::Many, VT),
+                e("edge", EDGE, Card::Many, VT),
+            ],
+        },
+        TypeDef {
+            name: "Property".into(),
+            is_interface: false,
+            implements: vec![],
+            props: vec![p("name", "String!"), p("docs", "String"), p("type", "String!")],
+            edges: vec![],
+        },
+        TypeDef {
+            name: "Edge".into(),
+            is_interface: false,
+            implements: vec![],
+            props: vec![
+                p("name", "String!"),
+                p("docs", "String"),
+                p("to_many", "Boolean!"),
+                p("at_least_one", "Boolean!"),
+            ],
+            edges: vec![e("target", VT, Card::One, EDGE), e("parameter", PARAM, Card::Many, EDGE)],
+        },
+        TypeDef {
+            name: "EdgeParameter".into(),
+            is_interface: false,
+            implements: vec![],
+            props: vec![p("name", "String!"), p("docs", "String"), p("type", "String!"), p("default", "String")],
+            edges: vec![],
+        },
+        TypeDef {
+            name: "Schema".into(),
+            is_interface: false,
+            implements: vec![],
+            props: vec![],
+            edges: vec![
+                e("vertex_type", VT, Card::ManyNonNull, SCHEMA),
+                e("entrypoint", EDGE, Card::ManyNonNull, SCHEMA),
+            ],
+        },
+    ];
+    let entry = vec![
+        EntryPoint { name: "VertexType".into(), target: VT, card: Card::ManyNonNull, params: vec![], vertices: vec![] },
+        EntryPoint { name: "Entrypoint".into(), target: EDGE, card: Card::ManyNonNull, params: vec![], vertices: vec![] },
+        EntryPoint { name: "Schema".into(), target: SCHEMA, card: Card::One, params: vec![], vertices: vec![] },
+    ];
+    SchemaAst { root_name: "RootSchemaQuery".into(), types, entry }
+}
+
+fn default_json(def: &Option<FieldValue>, nullable: bool) -> FieldValue {
+    match def {
+        Some(v) => mk_str(&serde_json::to_string(&TransparentValue::from(v.clone())).unwrap()),
+        None if nullable => mk_str("null"),
+        None => FieldValue::Null,
+    }
+}
+
+/// The dataset view of a subject schema: what introspection should report, stated from the
+/// harness's own AST.
+pub fn meta_world(s: &SchemaAst) -> World {
+    let mut vs: Vec<VertexData> = vec![];
+    let mut push = |ty: usize, props: Vec<(&str, FieldValue)>| -> u32 {
+        vs.push(VertexData {
+            ty,
+            props: props.into_iter().map(|(k, v)| (k.to_string(), v)).collect(),
+            adj: BTreeMap::new(),
+        });
+        (vs.len() - 1) as u32
+    };
+    let vt_ids: Vec<u32> = s
+        .types
+        .iter()
+        .map(|t| {
+            push(
+                VT,
+                vec![
+                    ("name", mk_str(&t.name)),
+                    ("docs", FieldValue::Null),
+                    ("is_interface", FieldValue::Boolean(t.is_interface)),
+                ],
+            )
+        })
+        .collect();
+    let mut mk_edge = |name: &str, card: Card, target: usize, params: &[crate::world::ParamDef], vs_push: &mut dyn FnMut(usize, Vec<(&str, FieldValue)>) -> u32| -> (u32, Vec<u32>, usize) {
+        let id = vs_push(
+            EDGE,
+            vec![
+                ("name", mk_str(name)),
+                ("docs", FieldValue::Null),
+                ("to_many", FieldValue::Boolean(card.to_many())),
+                ("at_least_one", FieldValue::Boolean(matches!(card, Card::One | Card::ManyNonNull))),
+            ],
+        );
+        let mut pids = vec![];
+        for pd in params {
+            pids.push(vs_push(
+                PARAM,
+                vec![
+                    ("name", mk_str(&pd.name)),
+                    ("docs", FieldValue::Null),
+                    ("type", mk_str(&pd.ty.render())),
+                    ("default", default_json(&pd.default, pd.ty.nullable())),
+                ],
+            ));
+        }
+        (id, pids, target)
+    };
+    let mut edge_records: Vec<(u32, Vec<u32>, usize)> = vec![];
+    let mut per_type: Vec<(Vec<u32>, Vec<u32>)> = vec![];
+    for t in &s.types {
+        let mut prop_ids = vec![];
+        for pd in &t.props {
+            prop_ids.push(push(
+                PROP,
+                vec![("name", mk_str(&pd.name)), ("docs", FieldValue::Null), ("type", mk_str(&pd.ty.render()))],
+            ));
+        }
+        let mut edge_ids = vec![];
+        for ed in &t.edges {
+            let rec = mk_edge(&ed.name, ed.card, ed.target, &ed.params, &mut push);
+            edge_ids.push(rec.0);
+            edge_records.push(rec);
+        }
+        per_type.push((prop_ids, edge_ids));
+    }
+    let mut entry_ids = vec![];
+    for ep in &s.entry {
+        let rec = mk_edge(&ep.name, ep.card, ep.target, &ep.params, &mut push);
+        entry_ids.push(rec.0);
+        edge_records.push(rec);
+    }
+    let schema_id = push(SCHEMA, vec![]);
+    drop(push);
+    for (k, t) in s.types.iter().enumerate() {
+        let v = &mut vs[vt_ids[k] as usize];
+        v.adj.insert("implements".into(), t.implements.iter().map(|i| vt_ids[*i]).collect());
+        let mut subs: Vec<usize> = (0..s.types.len()).filter(|x| *x != k && s.types[*x].implements.contains(&k)).collect();
+        subs.sort_by(|a, b| s.types[*a].name.cmp(&s.types[*b].name));
+        v.adj.insert("implementer".into(), subs.iter().map(|i| vt_ids[*i]).collect());
+        v.adj.insert("property".into(), per_type[k].0.clone());
+        v.adj.insert("edge".into(), per_type[k].1.clone());
+    }
+    for (id, pids, target) in edge_records {
+        let v = &mut vs[id as usize];
+        v.adj.insert("target".into(), vec![vt_ids[target]]);
+        v.adj.insert("parameter".into(), pids);
+    }
+    vs[schema_id as usize].adj.insert("vertex_type".into(), vt_ids.clone());
+    vs[schema_id as usize].adj.insert("entrypoint".into(), entry_ids.clone());
+    let mut schema = meta_schema_ast();
+    schema.entry[0].vertices = vt_ids;
+    schema.entry[1].vertices = entry_ids;
+    schema.entry[2].vertices = vec![schema_id];
+    World { schema, vertices: vs }
+}
+
+// ---------------------------------------------------------------------------------------------
+// The perturbing wrapper around the real SchemaAdapter.
+
+struct Shared {
+    sched: RefCell<Tape>,
+    random: bool,
+    problems: RefCell<Vec<(String, String)>>,
+    injected: Cell<u64>,
+    read_ahead: Cell<u64>,
+}
+
+struct PerturbAdapter<'a> {
+    inner: SchemaAdapter<'a>,
+    shared: Rc<Shared>,
+}
+
+// Safety of lifetimes: all iterators are boxed with the adapter's `'a`; the wrappers hold only
+// `Rc`s and boxed closures without borrows.
+fn wrap_in<'a, V: AsVertex<SV<'a>> + 'a>(
+    contexts: ContextIterator<'a, V>,
+    shared: &Rc<Shared>,
+) -> (ContextIterator<'a, V>, Rc<RefCell<VecDeque<bool>>>) {
+    let flags = Rc::new(RefCell::new(VecDeque::new()));
+    // The boxed iterator types below carry `'a`; transmuting lifetimes is not needed because the
+    // wrapper structs are generic over the item type only and box their inner iterator as
+    // `dyn Iterator + 'a` through the helper below.
+    let it = lifetimes::input(contexts, flags.clone(), shared.clone());
+    (it, flags)
+}
+
+mod lifetimes {
+    //! Variants of the wrappers whose boxed inner iterators carry the adapter lifetime.
+    use super::*;
+
+    pub struct In<'a, V> {
+        pub inner: Option<ContextIterator<'a, V>>,
+        pub buf: VecDeque<DataContext<V>>,
+        pub flags: Rc<RefCell<VecDeque<bool>>>,
+        pub shared: Rc<Shared>,
+    }
+
+    impl<'a, V: Clone + std::fmt::Debug + 'a> Iterator for In<'a, V> {
+        type Item = DataContext<V>;
+        fn next(&mut self) -> Option<DataContext<V>> {
+            if self.buf.is_empty() {
+                if let Some(inner) = self.inner.as_mut() {
+                    let random = self.shared.random;
+                    let n = if random { 1 + self.shared.sched.borrow_mut().draw(4) } else { 1 };
+                    let mut got = 0;
+                    for _ in 0..n {
+                        match inner.next() {
+                            Some(c) => {
+                                if random && self.shared.sched.borrow_mut().draw(4) == 3 {
+                                    self.flags.borrow_mut().push_back(true);
+                                    self.buf.push_back(DataContext::new(None));
+                                    self.shared.injected.set(self.shared.injected.get() + 1);
+                                }
+                                self.flags.borrow_mut().push_back(false);
+                                self.buf.push_back(c);
+                                got += 1;
+                            }
+                            None => {
+                                self.inner = None;
+                                if random && self.shared.sched.borrow_mut().draw(4) == 3 {
+                                    self.flags.borrow_mut().push_back(true);
+                                    self.buf.push_back(DataContext::new(None));
+                                    self.shared.injected.set(self.shared.injected.get() + 1);
+                                }
+                                break;
+                            }
+                        }
+                    }
+                    if got >= 2 {
+                        self.shared.read_ahead.set(self.shared.read_ahead.get() + 1);
+                    }
+                }
+            }
+            self.buf.pop_front()
+        }
+    }
+
+    pub fn input<'a, V: Clone + std::fmt::Debug + 'a>(
+        contexts: ContextIterator<'a, V>,
+        flags: Rc<RefCell<VecDeque<bool>>>,
+        shared: Rc<Shared>,
+    ) -> ContextIterator<'a, V> {
+        Box::new(In { inner: Some(contexts), buf: VecDeque::new(), flags, shared })
+    }
+
+    pub struct Out<'a, V, O> {
+        pub inner: ContextOutcomeIterator<'a, V, O>,
+        pub flags: Rc<RefCell<VecDeque<bool>>>,
+        pub shared: Rc<Shared>,
+        pub site: String,
+        pub check_missing: Box<dyn FnMut(O) -> Option<&'static str> + 'a>,
+    }
+
+    impl<'a, V: AsVertex<SV<'a>> + 'a, O> Iterator for Out<'a, V, O> {
+        type Item = (DataContext<V>, O);
+        fn next(&mut self) -> Option<(DataContext<V>, O)> {
+            loop {
+                let (c, o) = self.inner.next()?;
+                let flag = self.flags.borrow_mut().pop_front();
+                match flag {
+                    None => {
+                        self.shared.problems.borrow_mut().push((
+                            "schema-adapter-produced-more-outputs-than-inputs".into(),
+                            self.site.clone(),
+                        ));
+                        return Some((c, o));
+                    }
+                    Some(false) => return Some((c, o)),
+                    Some(true) => {
+                        if c.active_vertex::<SV<'a>>().is_some() {
+                            self.shared.problems.borrow_mut().push((
+                                "schema-adapter-reordered-contexts".into(),
+                                self.site.clone(),
+                            ));
+                        }
+                        if let Some(problem) = (self.check_missing)(o) {
+                            self.shared.problems.borrow_mut().push((problem.into(), self.site.clone()));
+                        }
+                    }
+                }
+            }
+        }
+    }
+}
+
+impl<'a> Adapter<'a> for PerturbAdapter<'a> {
+    type Vertex = SV<'a>;
+
+    fn resolve_starting_vertices(
+        &self,
+        edge_name: &Arc<str>,
+        parameters: &EdgeParameters,
+        resolve_info: &ResolveInfo,
+    ) -> VertexIterator<'a, Self::Vertex> {
+        self.inner.resolve_starting_vertices(edge_name, parameters, resolve_info)
+    }
+
+    fn resolve_property<V: AsVertex<Self::Vertex> + 'a>(
+        &self,
+        contexts: ContextIterator<'a, V>,
+        type_name: &Arc<str>,
+        property_name: &Arc<str>,
+        resolve_info: &ResolveInfo,
+    ) -> ContextOutcomeIterator<'a, V, FieldValue> {
+        let (input, flags) = wrap_in(contexts, &self.shared);
+        let inner = self.inner.resolve_property(input, type_name, property_name, resolve_info);
+        Box::new(lifetimes::Out {
+            inner,
+            flags,
+            shared: self.shared.clone(),
+            site: format!("resolve_property({type_name}.{property_name})"),
+            check_missing: Box::new(|v: FieldValue| {
+                if matches!(v, FieldValue::Null) { None } else { Some("schema-adapter-non-null-property-for-missing-vertex") }
+            }),
+        })
+    }
+
+    fn resolve_neighbors<V: AsVertex<Self::Vertex> + 'a>(
+        &self,
+        contexts: ContextIterator<'a, V>,
+        type_name: &Arc<str>,
+        edge_name: &Arc<str>,
+        parameters: &EdgeParameters,
+        resolve_info: &ResolveEdgeInfo,
+    ) -> ContextOutcomeIterator<'a, V, VertexIterator<'a, Self::Vertex>> {
+        let (input, flags) = wrap_in(contexts, &self.shared);
+        let inner = self.inner.resolve_neighbors(input, type_name, edge_name, parameters, resolve_info);
+        Box::new(lifetimes::Out {
+            inner,
+            flags,
+            shared: self.shared.clone(),
+            site: format!("resolve_neighbors({type_name}.{edge_name})"),
+            check_missing: Box::new(|mut it: VertexIterator<'a, SV<'a>>| {
+                if it.next().is_none() { None } else { Some("schema-adapter-neighbors-for-missing-vertex") }
+            }),
+        })
+    }
+
+    fn resolve_coercion<V: AsVertex<Self::Vertex> + 'a>(
+        &self,
+        contexts: ContextIterator<'a, V>,
+        type_name: &Arc<str>,
+        coerce_to_type: &Arc<str>,
+        resolve_info: &ResolveInfo,
+    ) -> ContextOutcomeIterator<'a, V, bool> {
+        self.inner.resolve_coercion(contexts, type_name, coerce_to_type, resolve_info)
+    }
+}
+
+fn run_engine(
+    subject: &Schema,
+    compiled: Arc<trustfall_core::ir::IndexedQuery>,
+    args: Arc<BTreeMap<Arc<str>, FieldValue>>,
+    shared: Rc<Shared>,
+) -> Result<Vec<BTreeMap<Arc<str>, FieldValue>>, crate::runner::PanicInfo> {
+    take_panic();
+    let res = catch_unwind(AssertUnwindSafe(|| {
+        #[allow(clippy::arc_with_non_send_sync)]
+        let adapter = Arc::new(PerturbAdapter { inner: SchemaAdapter::new(subject), shared });
+        let it = interpret_ir(adapter, compiled, args).expect("arguments rejected");
+        let mut rows = vec![];
+        for r in it {
+            rows.push(r);
+            if rows.len() > 20_000 {
+                break;
+            }
+        }
+        rows
+    }));
+    res.map_err(|_| take_panic().unwrap_or(crate::runner::PanicInfo { message: "?".into(), location: "?".into() }))
+}
+
+pub fn case_c20(tapes: &mut Tapes) -> Result<CaseResult, HarnessError> {
+    let (subject_world, subject_text) = build_world(tapes);
+    let subject = Schema::parse(&subject_text)
+        .map_err(|e| HarnessError(format!("generated schema rejected: {e}\n{subject_text}")))?;
+    let meta_text = SchemaAdapter::schema_text().to_string();
+    let meta = Schema::parse(&meta_text).map_err(|e| HarnessError(format!("meta schema rejected: {e}")))?;
+    let mut stats = CaseStats::default();
+    let mut violations: Vec<Violation> = vec![];
+
+    // (a1) the real invariant checker on the real adapter
+    take_panic();
+    if catch_unwind(AssertUnwindSafe(|| check_adapter_invariants(&meta, SchemaAdapter::new(&subject)))).is_err() {
+        let info = take_panic().unwrap_or(crate::runner::PanicInfo { message: "?".into(), location: "?".into() });
+        violations.push(Violation {
+            property: "C20".into(),
+            class: "schema-adapter-fails-the-adapter-invariant-checker".into(),
+            detail: format!("panicked at {}: {}", info.location, info.message.lines().next().unwrap_or("")),
+            fingerprint: format!("invariants|{}", info.fingerprint()),
+        });
+    }
+    stats.execs += 1;
+
+    // (b) + (a2): generated introspection queries
+    let mworld = Rc::new(meta_world(&subject_world.schema));
+    let n_queries = 3;
+    let mut digest = fnv1a(subject_text.as_bytes());
+    for qi in 0..n_queries {
+        let mut cfg = QueryCfg::draw(&mut tapes.query, false);
+        cfg.f_coercion = false;
+        let q = gen_query(&mworld, &mut tapes.query, cfg);
+        let args = gen_args(&q, &mworld, &mut tapes.args);
+        let w = match finish_workload(mworld.clone(), meta_text.clone(), meta.clone(), q, args) {
+            Ok(w) => w,
+            Err(BuildError::Discard(_, _)) => {
+                stats.probes.insert("introspection_query_rejected".into());
+                continue;
+            }
+            Err(BuildError::FrontendPanic(..)) => continue,
+            Err(BuildError::SchemaRejected(_, e)) => return Err(HarnessError(e)),
+        };
+        // argument validation happens inside interpret_ir; make sure it accepts first
+        if trustfall_core::interpreter::InterpretedQuery::from_query_and_arguments(w.compiled.clone(), w.args_arc.clone()).is_err() {
+            continue;
+        }
+        let model = Model::new(&mworld, &w.q, &w.args).run(&w.q);
+        if model.overflow {
+            continue;
+        }
+        digest = mix(digest, fnv1a(w.query_text.as_bytes()));
+        for random in [false, true] {
+            let sched = if random { std::mem::replace(&mut tapes.sched, Tape::replaying(vec![])) } else { Tape::replaying(vec![]) };
+            let shared = Rc::new(Shared {
+                sched: RefCell::new(sched),
+                random,
+                problems: RefCell::new(vec![]),
+                injected: Cell::new(0),
+                read_ahead: Cell::new(0),
+            });
+            let res = run_engine(&subject, w.compiled.clone(), w.args_arc.clone(), shared.clone());
+            if random {
+                tapes.sched = shared.sched.borrow().clone();
+            }
+            stats.execs += 1;
+            stats.fires.f2_chunked_refill += shared.read_ahead.get();
+            stats.events += shared.injected.get();
+            if shared.injected.get() > 0 {
+                stats.probes.insert("contexts_without_vertex_injected".into());
+            }
+            let label = if random { "perturbed-inputs" } else { "plain" };
+            for (problem, site) in shared.problems.borrow().iter() {
+                violations.push(Violation {
+                    property: "C20".into(),
+                    class: problem.clone(),
+                    detail: format!("[{label}] at {site}\n{}", w.query_text),
+                    fingerprint: format!("{problem}|{site}"),
+                });
+            }
+            match res {
+                Err(info) => {
+                    if info.location.starts_with("src/") {
+                        return Err(HarnessError(format!("{} at {}", info.message, info.location)));
+                    }
+                    violations.push(Violation {
+                        property: "C20".into(),
+                        class: "panic-during-introspection-query".into(),
+                        detail: format!(
+                            "[{label}] panicked at {}: {}\n{}",
+                            info.location,
+                            info.message.lines().next().unwrap_or(""),
+                            w.query_text
+                        ),
+                        fingerprint: format!("panic|{}", info.fingerprint()),
+                    });
+                }
+                Ok(raw) => {
+                    if model.undefined.is_some() {
+                        continue;
+                    }
+                    let mut rows: Vec<Row> = raw.iter().map(row_to_model).collect();
+                    let mut mrows = model.rows.clone();
+                    for r in rows.iter_mut() {
+                        canon_fold_lists(&w.q.root, "", r);
+                    }
+                    for r in mrows.iter_mut() {
+                        canon_fold_lists(&w.q.root, "", r);
+                    }
+                    if !mrows.is_empty() {
+                        stats.rows += mrows.len();
+                    }
+                    if let Some(d) = rows_differ(&rows, &mrows, model.nonforest) {
+                        violations.push(Violation {
+                            property: "C20".into(),
+                            class: "introspection-rows-differ-from-the-schema".into(),
+                            detail: format!("[{label}] SchemaAdapter vs the harness's view of the schema: {d}\n{}args: {:?}", w.query_text, w.args),
+                            fingerprint: format!("rows|features={}", w.q.features().into_iter().collect::<Vec<_>>().join(",")),
+                        });
+                    }
+                }
+            }
+        }
+        let _ = qi;
+    }
+    let mut seen = std::collections::BTreeSet::new();
+    violations.retain(|v| seen.insert(format!("{}|{}", v.class, v.fingerprint)));
+    stats.nontrivial = stats.rows > 0;
+    stats.case_digest = digest;
+    stats.sample = Some(serde_json::json!({
+        "subject_schema_types": subject_world.schema.types.iter().map(|t| t.name.clone()).collect::<Vec<_>>(),
+        "meta_vertices": mworld.vertices.len(),
+        "engine_executions": stats.execs,
+        "model_rows_compared": stats.rows,
+        "injected_contexts_without_vertex": stats.events,
+    }));
+    Ok(CaseResult { violations, stats })
+}
+
